@@ -1,7 +1,7 @@
 /-
 Wrapping decoder (C01, release build), part 4: `SubFrame::decode()` of the release build returns the
 input block for every sub-frame `encode_subframe` can return — for every oracle log satisfying
-`OEvent.Ok`, WITHOUT `LpcFits`.
+`OEvent.Ok`.
 -/
 import FlacVerif.Lemmas.WrapLpc
 import FlacVerif.Lemmas.StrictSubframe
